@@ -98,6 +98,7 @@ public:
   int error_count;
   int ifdef_count;
   int parsing_ifdef;
+  int include_depth;
   Linker *linker;
   char def_param_stack_data[PARAM_STACK_LEN];
   int def_param_stack_ptr[MAX_NESTED_MACROS + 1];
